@@ -91,3 +91,52 @@ Proof.
   rewrite link_split by exact H4.
   unfold env_in. rewrite H3. reflexivity.
 Qed.
+
+(* the same with a base environment of external functions (oracles) under the program *)
+Definition call_with (p : program) (base : fenv) (fuel : nat) (f : string) (args : list val)
+  : res (list val) :=
+  link (globals (p_globals p)) fuel (p_fns p) base f args.
+
+Definition env_in_with (p : program) (base : fenv) (name : string) (fuel : nat) : fenv :=
+  link (globals (p_globals p)) fuel (prefix_before name (p_fns p)) base.
+
+Lemma call_with_no_fns p fuel f args : call_with p no_fns fuel f args = call p fuel f args.
+Proof. reflexivity. Qed.
+
+Lemma call_env_with p base name f :
+  lookup_fn name (p_fns p) = Some f ->
+  absent name (suffix_after name (p_fns p)) = true ->
+  forall fuel args,
+    call_with p base fuel name args =
+    run_fn (globals (p_globals p)) (env_in_with p base name fuel) fuel f args.
+Proof.
+  intros Hl Ha fuel args. unfold call_with, env_in_with.
+  rewrite (split_lookup name (p_fns p) f Hl) at 1.
+  apply link_split. exact Ha.
+Qed.
+
+Lemma env_call_with p base name callee g :
+  lookup_fn callee (prefix_before name (p_fns p)) = Some g ->
+  lookup_fn callee (p_fns p) = Some g ->
+  prefix_before callee (prefix_before name (p_fns p)) = prefix_before callee (p_fns p) ->
+  absent callee (suffix_after callee (prefix_before name (p_fns p))) = true ->
+  absent callee (suffix_after callee (p_fns p)) = true ->
+  forall fuel args, env_in_with p base name fuel callee args = call_with p base fuel callee args.
+Proof.
+  intros H1 H2 H3 H4 H5 fuel args.
+  rewrite (call_env_with p base callee g H2 H5).
+  unfold env_in_with at 1.
+  rewrite (split_lookup callee _ g H1) at 1.
+  rewrite link_split by exact H4.
+  unfold env_in_with. rewrite H3. reflexivity.
+Qed.
+
+(* a name that is not a function of the program is looked up in the base environment *)
+Lemma env_base p base name ext :
+  absent ext (prefix_before name (p_fns p)) = true ->
+  forall fuel args, env_in_with p base name fuel ext args = base ext args.
+Proof. intros H fuel args. unfold env_in_with. apply link_absent. exact H. Qed.
+
+(* the functions that use no external function do not see the base environment:
+   for them [call_with] is [call] as soon as their callees' specifications hold
+   in both; the per-function lemmas are therefore stated for an arbitrary [fe] *)
